@@ -80,8 +80,18 @@ REQUIRED = {
         "cg_struct:trace_exactly_zero": 100, "cg_struct:diagonal_exactly_zero": 40, "cg_struct:zero_matrix": 20,
         "cg_struct:duplicate_eigenvalues": 60, "cg_struct:zero_eigenvalue": 60,
         "dogleg_struct.kind:3": 10, "dogleg_struct.kind:4": 10,
+        "exact_illcond.calls": 600, "cg_illcond.calls": 600, "dogleg_illcond.calls": 100,
+        "exact_illcond.place:newton_interior": 150, "exact_illcond.place:newton_on_boundary": 150, "exact_illcond.place:newton_outside": 150,
+        "exact_illcond.basis:exact": 200, "exact_illcond.basis:haar": 200, "exact_illcond.judged_against_newton_reference": 150,
     },
 }
+for _b in ("cond1e8-1e10", "cond1e10-1e12", "cond1e12-1e14", "cond1e14-1e16", "at_or_below_eps"):
+    for _g in ("generic", "orth_exact", "orth_numeric"):
+        for _r in ("R1e-6..1e-2", "R1e-2..1e2", "R1e2..1e8"):
+            REQUIRED["all"]["exact_illcond:%s|%s|%s" % (_b, _g, _r)] = 12
+            REQUIRED["all"]["cg_illcond:%s|%s|%s" % (_b, _g, _r)] = 12
+        if _b != "at_or_below_eps":
+            REQUIRED["all"]["exact_illcond.newton_interior|%s|%s" % (_b, _g)] = 6
 WATCHDOG_S = {"quick": 2400, "thorough": 4 * 3600}
 MAX_VACUOUS_FRACTION = 0.2
 
@@ -95,6 +105,11 @@ CG_SPECTRA = ["spd", "indefinite", "singular", "repeated", "clustered", "zero_cu
 EXACT_KINDS = ["interior", "boundary", "hard", "hard_multi", "near_hard", "singular", "special"]
 XS_NS = [1, 2, 3, 4, 5, 8]
 XS_KINDS = ["zero_trace", "zero_diagonal", "pm_spectrum", "duplicates", "zero_eigs", "zero_matrix", "hard_integer", "hadamard"]
+IC_NS = [2, 3, 5, 8, 16, 40]
+IC_BANDS = ["cond1e8-1e10", "cond1e10-1e12", "cond1e12-1e14", "cond1e14-1e16", "at_or_below_eps"]
+IC_GRADS = ["generic", "orth_exact", "orth_numeric"]
+IC_RADII = ["R1e-6..1e-2", "R1e-2..1e2", "R1e2..1e8"]
+IC_PLACE = ["newton_interior", "newton_on_boundary", "newton_outside"]
 EXHAUSTIVE_2X2 = 125 * 9 * 3
 EXHAUSTIVE_1X1 = 5 * 3 * 3
 
@@ -151,6 +166,16 @@ def build_cases(tier, seed):
                               "seed": derive_seed(seed, PROPERTY, "cg_struct", kind, n, rep)})
             cases.append({"cls": "dogleg_struct", "group": "n%d" % n, "n": n, "calls": 24, "cost": 0.4,
                           "seed": derive_seed(seed, PROPERTY, "dogleg_struct", n, rep)})
+    # extreme conditioning: SPD with condition 1e8..1e16 (lowest eigenvalue down to / below the eps ||A|| level) x gradient class x
+    # radius band, Newton step interior / exactly on the boundary / outside -- one call per combination and case
+    ic_reps = 3 if tier == "quick" else 24
+    for rep in range(ic_reps):
+        for n in IC_NS:
+            for fam in ("exact_illcond", "cg_illcond"):
+                cases.append({"cls": fam, "group": "n%d" % n, "n": n, "rep": rep, "cost": 1.5 + n / 20.0,
+                              "seed": derive_seed(seed, PROPERTY, fam, n, rep)})
+            cases.append({"cls": "dogleg_illcond", "group": "n%d" % n, "n": n, "rep": rep, "cost": 0.5,
+                          "seed": derive_seed(seed, PROPERTY, "dogleg_illcond", n, rep)})
     # exhaustive sub-space: every symmetric 2x2 with entries in {-2..2} x b in {-1,0,1}^2 x Delta in {0.5, 1, 4} (3375 calls),
     # and every 1x1 a in {-2..2} x b in {-1,0,1} x the same radii (45 calls)
     for chunk in range(25):
@@ -917,6 +942,153 @@ def _run_dogleg_struct(case, res, mon):
     res.nontrivial = True
 
 
+def gen_illcond(rng, n, band, grad, radius, place, exact_basis):
+    """SPD matrix with one tiny eigenvalue (mean|sigma| ~ ||A||), gradient class, radius band and position of the Newton step.
+    exact_basis: A = P diag(sigma) P^T with a permutation (entries exact) -- else a Haar eigenbasis (sigma_0 is then only
+    defined up to eps ||A||)."""
+    scale = 10.0 ** rng.uniform(-3, 3)
+    sig = rng.uniform(0.3, 3.0, n) * scale
+    if n > 2 and rng.random() < 0.4:
+        sig[1:] = 10.0 ** rng.uniform(-3, 0, n - 1) * scale
+        sig[-1] = scale
+    top = float(sig[1:].max()) if n > 1 else float(sig[0])
+    mean = float(onp.mean(sig[1:])) if n > 1 else float(sig[0])
+    lo, hi = {"cond1e8-1e10": (-10, -8), "cond1e10-1e12": (-12, -10), "cond1e12-1e14": (-14, -12), "cond1e14-1e16": (-16, -14),
+              "at_or_below_eps": (-18, -15.7)}[band]
+    sig[0] = mean * 10.0 ** rng.uniform(lo, hi)
+    if band == "at_or_below_eps" and rng.random() < 0.3:
+        sig[0] = 0.0 if exact_basis else sig[0]
+    if exact_basis:
+        perm = rng.permutation(n)
+        Q = onp.eye(n)[:, perm]
+        A = Q @ onp.diag(sig) @ Q.T
+    else:
+        Q = haar_on(rng, n) if n > 1 else onp.eye(1)
+        A = _sym(Q @ onp.diag(sig) @ Q.T)
+    c = rng.standard_normal(n)
+    if grad == "orth_exact":
+        c[0] = 0.0                                   # exactly zero component along the lowest eigenvector (exact basis only)
+        b = Q @ c
+    elif grad == "orth_numeric":
+        b = Q @ c
+        w, V = onp.linalg.eigh(A)
+        b = b - V[:, 0] * (V[:, 0] @ b)              # orthogonal to the COMPUTED lowest eigenvector: component ~ eps ||b||
+    else:
+        b = Q @ c
+    if n == 1 and grad != "generic":
+        b = onp.zeros(1)
+    # Newton step length (reference spectrum), then scale b so that it sits where `place` wants it relative to Delta
+    lo_r, hi_r = {"R1e-6..1e-2": (-6, -2), "R1e-2..1e2": (-2, 2), "R1e2..1e8": (2, 8)}[radius]
+    Delta = 10.0 ** rng.uniform(lo_r, hi_r)
+    with onp.errstate(all="ignore"):
+        cc = Q.T @ b
+        sN = onp.where(sig > 0, cc / onp.where(sig > 0, sig, 1.0), 0.0)
+        if sig[0] <= 0 or abs(cc[0]) <= 1e-13 * max(onp.abs(cc).max(), 1e-300):
+            sN[0] = 0.0 if sig[0] <= 0 else sN[0]
+    nN = float(onp.linalg.norm(sN))
+    if nN > 0 and onp.isfinite(nN):
+        f = {"newton_interior": 10.0 ** rng.uniform(0.05, 4), "newton_on_boundary": 1.0, "newton_outside": 10.0 ** (-rng.uniform(0.05, 3))}[place]
+        b = b * (Delta / f / nN)
+    return A, b, float(Delta), {"band": band, "grad": grad, "radius": radius, "place": place, "exact_basis": bool(exact_basis), "n": n,
+                                "Delta": float(Delta), "sigma0_over_mean": float(sig[0] / mean) if mean > 0 else 0.0}
+
+
+def _illcond_combos(case):
+    import itertools
+    combos = list(itertools.product(IC_BANDS, IC_GRADS, IC_RADII))
+    out = []
+    for k, (band, grad, radius) in enumerate(combos):
+        place = IC_PLACE[(k + case["rep"]) % 3]
+        exact_basis = (grad == "orth_exact") or ((k + case["rep"]) % 2 == 0)
+        out.append((band, grad, radius, place, exact_basis))
+    return out
+
+
+def _run_exact_illcond(case, res, mon):
+    from optimism.treigen import treigen
+    rng = rng_of(case["seed"])
+    n = case["n"]
+    _warm_exact(n, mon)
+    for k, (band, grad, radius, place, eb) in enumerate(_illcond_combos(case)):
+        A, b, Delta, rec = gen_illcond(rng, n, band, grad, radius, place, eb)
+        res.count("exact_illcond.calls")
+        res.count("exact_illcond:%s|%s|%s" % (band, grad, radius))
+        res.count("exact_illcond.place:" + place)
+        res.count("exact_illcond.basis:" + ("exact" if eb else "haar"))
+        before = mon.LOG.counters.get("exact.interior_reference_used", 0)
+        _exact_one(res, mon, treigen, A, b, Delta, rec, "exact_illcond")
+        if mon.LOG.counters.get("exact.interior_reference_used", 0) > before:
+            res.count("exact_illcond.judged_against_newton_reference")
+            res.count("exact_illcond.newton_interior|%s|%s" % (band, grad))
+    mon.set_context(None)
+    res.nontrivial = True
+
+
+def _run_cg_illcond(case, res, mon):
+    import jax.numpy as np
+    from optimism import EquationSolver as ES
+    rng = rng_of(case["seed"])
+    n = case["n"]
+    deep = False
+    for k, (band, grad, radius, place, eb) in enumerate(_illcond_combos(case)):
+        H, g, Delta, rec = gen_illcond(rng, n, band, grad, radius, place, eb)
+        pk = k % 3
+        P = onp.eye(n) if pk == 0 else (onp.diag(1.0 / onp.maximum(onp.abs(onp.diag(H)), 1e-300)) if pk == 1 else onp.diag(2.0 ** rng.integers(-3, 4, n).astype(float)))
+        pre = bool(k % 2)
+        Hj, Pj = np.asarray(H), np.asarray(P)
+        st = ES.get_settings(use_preconditioned_inner_product_for_cg=pre, max_cg_iters=int(rng.integers(1, 61)), debug_info=False,
+                             cg_tol=10.0 ** rng.uniform(-12, -4))
+        mon.set_context(dict(rec, pre=pre, seed=case["seed"], call=k))
+        try:
+            out = ES.solve_trust_region_minimization(np.zeros(n), np.asarray(g), lambda v: Hj @ v, lambda v: Pj @ v, Delta, st)
+        except mon.C06ContractViolation:
+            raise
+        except Exception as e:
+            res.violate("cg.raised", {"exception": "%s: %s" % (type(e).__name__, str(e)[:200]), "call": rec})
+            continue
+        res.count("cg.calls")
+        res.count("cg_illcond.calls")
+        res.count("cg_illcond:%s|%s|%s" % (band, grad, radius))
+        if int(out[3]) >= 2 or out[2] in ("boundary", "neg curve"):
+            deep = True
+    mon.set_context(None)
+    res.nontrivial = deep
+
+
+def _run_dogleg_illcond(case, res, mon):
+    """Dogleg between the Cauchy point and the Newton point of an extremely ill-conditioned SPD model, in the Euclidean metric
+    and in a diagonal metric of condition up to 1e12."""
+    import jax.numpy as np
+    from optimism import EquationSolver as ES
+    rng = rng_of(case["seed"])
+    n = case["n"]
+    for k, (band, grad, radius, place, eb) in enumerate(_illcond_combos(case)[::3]):
+        H, g, Delta, rec = gen_illcond(rng, n, band, grad, radius, place, eb)
+        if not onp.any(g):
+            continue
+        gHg = float(g @ H @ g)
+        cp = -(float(g @ g) / gHg) * g if gHg > 0 else -g
+        w, V = onp.linalg.eigh(H)
+        nw = -V @ ((V.T @ g) / onp.maximum(w, 1e-300 + 1e-18 * w[-1]))
+        if not (onp.all(onp.isfinite(cp)) and onp.all(onp.isfinite(nw))):
+            continue
+        M = onp.eye(n) if k % 2 else onp.diag(10.0 ** rng.uniform(-6, 6, n))
+        Mj = np.asarray(M)
+        mon.set_context(dict(rec, seed=case["seed"], call=k))
+        try:
+            ES.dogleg_step(np.asarray(cp), np.asarray(nw), Delta, lambda v: Mj @ v)
+        except mon.C06ContractViolation:
+            raise
+        except Exception as e:
+            res.violate("dogleg.raised", {"exception": "%s: %s" % (type(e).__name__, str(e)[:200]), "call": rec})
+            continue
+        res.count("dogleg.calls")
+        res.count("dogleg_illcond.calls")
+        res.count("dogleg_illcond.band:" + band)
+    mon.set_context(None)
+    res.nontrivial = True
+
+
 class _DenseObjective:
     """Duck-typed objective for the in-situ class: f(x) = sum_i w_i (x_i^2 - 1)^2 / 4 + x.K.x / 2 - c.x (non-convex)."""
 
@@ -992,6 +1164,12 @@ def run_case(case):
     try:
         if cls == "cg_struct":
             _run_cg_struct(case, res, mon)
+        elif cls == "exact_illcond":
+            _run_exact_illcond(case, res, mon)
+        elif cls == "cg_illcond":
+            _run_cg_illcond(case, res, mon)
+        elif cls == "dogleg_illcond":
+            _run_dogleg_illcond(case, res, mon)
         elif cls.startswith("cg_"):
             _run_cg_bundle(case, res, mon)
         elif cls == "dogleg":
